@@ -2544,6 +2544,156 @@ func (g *wgen) eofFailure(sname string, dm, em *ast.FuncDecl) (dec, enc []wfield
 	return dec, enc, true, nil
 }
 
+// ---------------------------------------------------------------- default-elided records
+//
+// Pure-TLV messages write some records only when a test on the value holds and fill a
+// default on Decode when the record is absent.  For every
+//
+//	if <test> { ...; producers = append(producers, &X) }
+//
+// of a record-collecting method (AllRecords, nonSignatureRecordProducers) of a registered
+// message the test must be of a shape known to mean "value != default":
+//
+//	recv.F.Val != CONST                         -> ENe CONST
+//	!recv.F.Val.M()  with  func (c T) M() bool { return c == CONST }   -> ENe CONST
+//	!recv.F.Val.IsEqual(chaincfg.MainNetParams.GenesisHash)            -> ENeGenesis
+//
+// anything else is EUnknown (C10_gen_elisions_ok then fails).  The decoder's default comes
+// from `if _, ok := typeMap[recv.F.TlvType()]; !ok { recv.F.Val = CONST }` /
+// `recv.F.Val = *chaincfg.MainNetParams.GenesisHash` in Decode; none = the Go zero value.
+func (g *wgen) elisions(msgs []wmsg) []string {
+	var out []string
+	for _, m := range msgs {
+		for _, meth := range []string{"AllRecords", "nonSignatureRecordProducers"} {
+			fd, ok := g.methods[m.sname+"."+meth]
+			if !ok || len(fd.Recv.List[0].Names) != 1 {
+				continue
+			}
+			recv := fd.Recv.List[0].Names[0].Name
+			for _, st := range fd.Body.List {
+				is, ok := st.(*ast.IfStmt)
+				if !ok || is.Init != nil || !strings.Contains(g.src(is.Body), "append(") {
+					continue
+				}
+				test, fld := g.elisionTest(is.Cond, recv, m.sname)
+				typ := "0"
+				why := ""
+				if fld == "" {
+					why = "test " + g.src(is.Cond) + " does not name a record field"
+				} else if ft, ok := g.structField(m.sname, fld); ok {
+					if t, _, err := g.recordOfTypeNoKind(st, ft); err == nil {
+						typ = strconv.FormatUint(t, 10)
+					} else {
+						why = err.Error()
+					}
+				}
+				if test == "EUnknown" && why == "" {
+					why = "test " + g.src(is.Cond) + " is not of a shape known to mean value != default"
+				}
+				def := g.decodeDefault(m.sname, fld)
+				c := ""
+				if why != "" {
+					c = "  (* " + strings.ReplaceAll(g.at(st)+": "+why, "*)", "* )") + " *)"
+				}
+				out = append(out, fmt.Sprintf("{| el_msg := %d; el_type := %s; el_test := %s; el_default := %s |}%s",
+					m.typ, typ, test, def, c))
+			}
+		}
+	}
+	return out
+}
+
+// TLV type of a tlv.RecordT / OptionalRecordT field, whatever its value codec
+func (g *wgen) recordOfTypeNoKind(n ast.Node, t ast.Expr) (uint64, string, error) {
+	t = g.resolveAlias(t)
+	if ix, ok := t.(*ast.IndexListExpr); ok && len(ix.Indices) == 2 {
+		typ, err := g.tlvTypeNum(n, ix.Indices[0])
+		return typ, "", err
+	}
+	return 0, "", g.bad(n, "field is not a tlv.RecordT")
+}
+
+func (g *wgen) elisionTest(cond ast.Expr, recv, sname string) (string, string) {
+	valOf := func(e ast.Expr) (string, bool) { // recv.F.Val -> F
+		sel, ok := e.(*ast.SelectorExpr)
+		if !ok || sel.Sel.Name != "Val" {
+			return "", false
+		}
+		return recvField(sel.X, recv)
+	}
+	if be, ok := cond.(*ast.BinaryExpr); ok && be.Op == token.NEQ {
+		if f, ok := valOf(be.X); ok {
+			if c, ok := g.evalConst(be.Y, 0, 0); ok {
+				return fmt.Sprintf("(ENe %d)", c), f
+			}
+			return "EUnknown", f
+		}
+	}
+	if u, ok := cond.(*ast.UnaryExpr); ok && u.Op == token.NOT {
+		if c, ok := u.X.(*ast.CallExpr); ok {
+			if sel, ok := c.Fun.(*ast.SelectorExpr); ok {
+				if f, ok := valOf(sel.X); ok {
+					if sel.Sel.Name == "IsEqual" && len(c.Args) == 1 &&
+						g.src(c.Args[0]) == "chaincfg.MainNetParams.GenesisHash" {
+						return "ENeGenesis", f
+					}
+					// func (c T) M() bool { return c == CONST }
+					if len(c.Args) == 0 {
+						if ft, ok := g.structField(sname, f); ok {
+							if ix, ok := g.resolveAlias(ft).(*ast.IndexListExpr); ok && len(ix.Indices) == 2 {
+								if md, ok := g.methods[g.src(ix.Indices[1])+"."+sel.Sel.Name]; ok &&
+									len(md.Body.List) == 1 && len(md.Recv.List[0].Names) == 1 {
+									if ret, ok := md.Body.List[0].(*ast.ReturnStmt); ok && len(ret.Results) == 1 {
+										if eq, ok := ret.Results[0].(*ast.BinaryExpr); ok && eq.Op == token.EQL &&
+											g.src(eq.X) == md.Recv.List[0].Names[0].Name {
+											if k, ok := g.evalConst(eq.Y, 0, 0); ok {
+												return fmt.Sprintf("(ENe %d)", k), f
+											}
+										}
+									}
+								}
+							}
+						}
+					}
+					return "EUnknown", f
+				}
+			}
+		}
+	}
+	return "EUnknown", ""
+}
+
+func (g *wgen) decodeDefault(sname, fld string) string {
+	fd, ok := g.methods[sname+".Decode"]
+	if !ok || fld == "" || len(fd.Recv.List[0].Names) != 1 {
+		return "(DConst 0)"
+	}
+	recv := fd.Recv.List[0].Names[0].Name
+	def := "(DConst 0)"
+	lhs := recv + "." + fld + ".Val"
+	for _, st := range fd.Body.List {
+		// recv.F.Val = *chaincfg.MainNetParams.GenesisHash   (unconditional, overwritten when present)
+		if as, ok := st.(*ast.AssignStmt); ok && len(as.Lhs) == 1 && len(as.Rhs) == 1 && g.src(as.Lhs[0]) == lhs {
+			if g.src(as.Rhs[0]) == "*chaincfg.MainNetParams.GenesisHash" {
+				def = "DGenesis"
+			}
+		}
+		// if _, ok := typeMap[recv.F.TlvType()]; !ok { recv.F.Val = CONST }
+		if is, ok := st.(*ast.IfStmt); ok && is.Init != nil && g.src(is.Cond) == "!ok" && len(is.Body.List) == 1 &&
+			strings.Contains(g.src(is.Init), "typeMap["+recv+"."+fld+".TlvType()]") {
+			if as, ok := is.Body.List[0].(*ast.AssignStmt); ok && len(as.Lhs) == 1 && len(as.Rhs) == 1 &&
+				g.src(as.Lhs[0]) == lhs {
+				if c, ok := g.evalConst(as.Rhs[0], 0, 0); ok {
+					def = fmt.Sprintf("(DConst %d)", c)
+				} else {
+					def = "(DConst 0) (* default " + g.src(as.Rhs[0]) + " not evaluable *)"
+				}
+			}
+		}
+	}
+	return def
+}
+
 func coqUpd(flds []wfield, opt bool) string {
 	return fmt.Sprintf("{| uf_pre := %s; uf_opt := %v |}", coqLayout(flds), opt)
 }
@@ -2799,6 +2949,7 @@ func wireCore(repo string) (string, string, error) {
 		fmt.Fprintf(&sym, "Example %s_unchanged : true = false. Proof. reflexivity. Qed.\n", k)
 		fmt.Fprintf(&b, "(* TRUSTED HELPER CHANGED (%s): %s *)\n", k, strings.ReplaceAll(g.helperDrift[k], "*)", "* )"))
 	}
+	wr("gen_elisions", "list elision", g.elisions(msgs))
 	wr("gen_layouts", "msg_table", plain)
 	wr("gen_failures", "msg_table", fails)
 	wr("gen_fdescs", "ftable", fdescs)
